@@ -109,8 +109,18 @@ class ReadableNames(ParseHarness):
     def build(self):
         ParseHarness.build(self)
         # sibling names must be distinct elements only if different: the parser merges equal names; nothing to assume
+    render_between = False
     def run(self, m):
-        root, _ = self.parse_all(m, self.scripts())
+        if self.render_between:
+            # render after every document: a later rendering must not be influenced by an earlier one
+            root = None
+            for i, sc in enumerate(self.scripts()):
+                r = X.reader(sc)
+                res = m.call_fn(m.fns['into_struct'], [r]) if i == 0 else m.call_fn(m.fns['extend_struct'], [r, root])
+                if res.variant != 'Ok': return {'root': None}
+                root = res.p[0]; render(m, root, {'preset': 'quick_xml_de'})
+        else:
+            root, _ = self.parse_all(m, self.scripts())
         if root is None: return {'root': None}
         text = render(m, root, {'preset': 'quick_xml_de'})
         ct = concrete_tree(m, root)
@@ -164,7 +174,7 @@ class ReadableNames(ParseHarness):
     def native_violation(self, a, replay):
         am = AssignmentModel(self.consts(), a)
         docs = [X.serialise(am, d) for d in self.docs]
-        nat = replay.ask({'op': 'render', 'docs': docs, 'options': [{'preset': 'quick_xml_de'}]})
+        nat = replay.ask({'op': 'render', 'docs': docs, 'options': [{'preset': 'quick_xml_de'}], 'render_each': bool(self.render_between)})
         if not nat.get('outputs'): return True, {'docs': docs, 'native': nat}
         ct = tree_from_debug(nat['trees'][-1])
         from .interp import Machine
